@@ -76,6 +76,7 @@ func main() {
 		grid = pick
 	}
 	var prevOp []byte
+	var late func(now int)
 	for i, c := range grid {
 		if i >= n {
 			break
@@ -143,6 +144,25 @@ func main() {
 		if opch != "" {
 			b, _ := hex.DecodeString(opch)
 			opcI = ev.Ints(b)
+		}
+		// a subscriber created earlier authenticates (again) now that a later subscriber with other credentials exists: its context must
+		// still hold its own K / OP / OPc
+		if late != nil && i%2 == 1 {
+			late(i)
+		}
+		{
+			ue, k, op, opcI, snn, mnc, mcc, supi, c, i0 := ue, k, op, opcI, snn, mnc, mcc, supi, c, i
+			late = func(now int) {
+				rnd, autn := ev.Bytes(r, 16), ev.Bytes(r, 16)
+				var a16 [16]byte
+				copy(a16[:], autn)
+				var res []byte
+				p := ev.Catch(func() { res = ue.DeriveRESstarAndSetKey(ue.AuthenticationSubs, a16, rnd, snn, mnc, mcc) })
+				w.Emit(ev.M{"ev": "Derive", "id": fmt.Sprintf("%d.late%d", i0, now), "round": 9, "k": ev.Ints(k), "op": ev.Ints(op), "opc": opcI, "rand": ev.Ints(rnd), "autn": ev.Ints(autn),
+					"mcc": ev.Ints([]byte(mcc)), "mnc": ev.Ints([]byte(mnc)), "supi": ev.Ints([]byte(supi)), "enc": c.enc, "int": c.integ,
+					"resStar": ev.Ints(res), "kamf": ev.Ints(ue.Kamf), "kenc": ev.Ints(ue.KnasEnc[:]), "kint": ev.Ints(ue.KnasInt[:]),
+					"panic": p != "", "cls": fmt.Sprintf("mnc%d-supi%d-opOnly%v-late", c.mncLen, c.supiLen, c.opOnly)})
+			}
 		}
 		// re-authentication: every third subscriber runs further AKA rounds on the same UE context with a fresh challenge
 		rounds := 1
